@@ -82,3 +82,29 @@ Section Meaning.
     | COtherCoef => None
     end.
 End Meaning.
+
+(** facts under which reactions / initial assignments keep their meaning *)
+Definition doc_facts_good (F : facts) : bool :=
+  facts_good F
+  && match f_derived_role F with Product => true | _ => false end
+  && match f_num_stoich F with NsSignAbs => true | _ => false end
+  && match f_ia_setter F with IaSetSymbol => true | _ => false end.
+
+(** the assignment rules written for computed coefficients.  The rule (and the species reference)
+    is named "<species>ref": ONE id per species, whatever the reaction -- species are numbered, so the
+    id is the species number here *)
+Definition rules_of (F : facts) (r : reaction) : list (N * result ml) :=
+  flat_map (fun xc => match snd xc with CDyn f a => [(fst xc, tree_to_sbml F f a)] | _ => [] end) (r_stoich r).
+Definition doc_rules (F : facts) (rs : list reaction) : list (N * result ml) := flat_map (rules_of F) rs.
+
+(** the rule an importer binds to a reference id: with several rules for one id (an invalid
+    document) the last one wins *)
+Fixpoint rule_for {A} (x : N) (l : list (N * A)) : option A :=
+  match l with
+  | [] => None
+  | (k, v) :: r =>
+      match rule_for x r with
+      | Some w => Some w
+      | None => if N.eqb k x then Some v else None
+      end
+  end.
